@@ -27,7 +27,8 @@ def _entries(v):
     return [(None, v)]
 
 
-def h_sim_equal(ctx, skeleton, script, date, n=3, args=None, tz=None):
+def h_sim_equal(ctx, skeleton, script, date, n=3, args=None, tz=None, date_tz=None):
+    """date_tz: the simulation date (same instant) written in another time zone than UTC"""
     spec = M.SKELETONS[skeleton](n, **(args or {}))
     if tz:
         for c in spec["countries"].values():
@@ -44,6 +45,9 @@ def h_sim_equal(ctx, skeleton, script, date, n=3, args=None, tz=None):
         first = min(V.utc_key(ts) for p in gt_sets(spec)["patterns"]
                     for ts in objs[p].utc_hourly_usage_journey_starts.value.index)
         when = (first + timedelta(hours=DATES[date])).to_pydatetime()
+        if date_tz:
+            import pytz
+            when = when.astimezone(pytz.timezone(date_tz))
     if date in ("before", "after", "naive"):
         try:
             ModelingUpdate(changes, when)
@@ -141,6 +145,10 @@ def plan(tier, seed):
         p.append(("sim_equal", dict(skeleton="T1", script=sc, date="interior_half")))
     for sc in (SCRIPTS_T9[0], SCRIPTS_T9[3]):
         p.append(("sim_equal", dict(skeleton="T9", script=sc, date="interior_half", n=3)))
+    # the same instants written in zones east and west of UTC
+    for d, z in (("first", "Asia/Tokyo"), ("first", "America/New_York"), ("interior", "Asia/Kolkata"), ("last", "America/Los_Angeles")):
+        p.append(("sim_equal", dict(skeleton="T1", script=SCRIPTS_T1[0], date=d, date_tz=z)))
+    p.append(("sim_equal", dict(skeleton="T9", script=SCRIPTS_T9[0], date="first", n=2, date_tz="Australia/Sydney")))
     for d in ("before", "after", "naive"):
         p.append(("sim_equal", dict(skeleton="T1", script=SCRIPTS_T1[0], date=d)))
         p.append(("sim_equal", dict(skeleton="T9", script=SCRIPTS_T9[0], date=d, n=2)))
